@@ -18,13 +18,13 @@ func init() {
 		Pkgs:      []string{"timeout"},
 		Run:       runC12,
 		Technique: "static analysis: abstract interpretation of the heap.Interface methods (symbolic slots and index fields), guard dominance, origin analysis of the invoked callback, must-lockset dataflow and who-may-write census on go/ssa of timeout/timeout.go",
-		Explanation: "R1: after Swap(i,j) the element in slot i has index i and the one in slot j has index j; Push gives the pushed element the length before the append; Pop marks the returned element with a negative index (abstract interpretation with symbolic slots). " +
-			"R2: Cancel removes by index only on the 'still queued' (idx>=0) edge, under the lock. " +
-			"R3: heap.Pop in the worker is dominated by the true edge of now.After(t) with t the fire time of element 0 of the same heap and now=time.Now(), all in one critical section. " +
-			"R4: the callback field is invoked only in the worker, and every origin of the invoked value is nil or the callback of the future just returned by heap.Pop (a value carried over an iteration is provably nil). " +
+		Explanation: "R1: after Swap(i,j) the element in slot i has index i and the one in slot j has index j; Push gives the pushed element the length before the append (also when written as the length after it minus one: length arithmetic over the one append); Pop marks the returned element with a negative index (abstract interpretation with symbolic slots; the queue is the heap object itself or a slice field of it). " +
+			"R2: Cancel (the function that calls heap.Remove: the future's method or the one it forwards to) removes by index only on the 'still queued' edge (idx>=0, or idx != m when m is the one negative constant every store outside Swap/Push writes into the index), known directly or through a flag, under the lock. " +
+			"R3: every heap.Pop in the worker or a helper it calls is dominated by the true edge of now.After(t) / t.Before(now) with t the fire time of element 0 of the heap (every alternative possible under the guards) and now=time.Now() (in a helper: at every call of it), all in one critical section. " +
+			"R4: the callback field is invoked only in the worker, and every origin of the invoked value is nil or the callback of the future just returned by heap.Pop - directly or by a helper all of whose results are nil or such a future (a value carried over an iteration is provably nil). " +
 			"R5: Call stores time.Now().Add(d) into the fire-time field before queueing. " +
-			"R6: the heap, the worker count and the futures' index/callback fields are touched only with the package lock held (heap.Interface methods inherit the lock of their heap.* call sites; the unpublished future in Call and package init are exempt). " +
-			"R7: the heap slice is written only by the heap.Interface methods (all removals go through Pop, which resets the index), and Call hands out a freshly allocated future (a recycled object would make a late Cancel hit another caller's future).",
+			"R6: the heap, the worker count and the futures' index/callback fields are touched only with the package lock held (heap.Interface methods inherit the lock of their heap.* call sites; a private function is entered with the locks held at all of its call sites, a fixed point over the package; objects under construction - the future in Call, the control block in its constructor - and package init are exempt). " +
+			"R7: the queue's slice and its elements are written only by the heap.Interface methods (all removals go through Pop, which resets the index), and Call hands out a freshly allocated future (a recycled object would make a late Cancel hit another caller's future).",
 		NotDecided: "actual start times and wall-clock behaviour; fairness between workers.",
 		Trusted:    []string{"container/heap calls only Len/Less/Swap/Push/Pop of the interface"},
 	})
@@ -34,12 +34,12 @@ func init() {
 		Run:       runC13,
 		Technique: "static analysis: must-pass-through path queries, must-lockset dataflow and shape rules on go/ssa of timeout/timeout.go",
 		Explanation: "R1: after heap.Push in add, every path to the exit starts a worker or pokes the wake channel. " +
-			"R2: every `go worker()` is preceded in the same critical section by workers++; every return of the worker is preceded by workers-- under the lock, and a worker that deregistered does not continue. " +
+			"R2: every `go worker()` is preceded in the same critical section by workers++; every return of the worker is preceded by workers-- under the lock, and a worker that deregistered does not continue (paths that contradict a step value or a flag they set themselves are not counted). " +
 			"R3: callbacks are invoked with the lock released. " +
 			"R4: the wake-up send is a select with default (never blocks) on a channel created with capacity >= 1 (a token is not lost while the worker is between unlock and select). " +
-			"R5: Less(i,j) is elem[i].fireTime.Before(elem[j].fireTime). " +
+			"R5: Less(i,j) is elem[i].fireTime.Before(elem[j].fireTime) (or elem[j].fireTime.After(elem[i].fireTime)). " +
 			"R7: the worker that consumed a wake-up token cannot retire before it has slept (with a recomputed timeout) or popped again - decided with path-sensitive constant propagation of the idle-round counter. " +
-			"R6: the worker re-reads the heap under the lock after every wake-up or timer expiry (no path from the select back to the select without Lock), and sleeps/blocks only with the lock released. R8: a re-used timer is drained when Stop reports it fired. R9: a worker deregisters only when the heap is empty or another worker remains. Q1-Q7: the heap index / cancel rules of C12 (a future removed by mistake never fires).",
+			"R6: the worker re-reads the heap under the lock after every wake-up or timer expiry (no path from the select back to the select without Lock), and sleeps/blocks only with the lock released. R8: a re-used timer is drained when Stop reports it fired. R9: a worker deregisters only when the heap is empty or another worker remains (the guard known directly, or through a flag computed under it on every way the flag can be set). Q1-Q7: the heap index / cancel rules of C12 (a future removed by mistake never fires).",
 		NotDecided: "lateness bounds, wind-down time, behaviour under stale wake-up tokens.",
 	})
 }
@@ -53,6 +53,8 @@ type timerRoles struct {
 	notify, cancelM               *ssa.Function
 	swap, push, pop, less, lenM   *ssa.Function
 	ctrlMethods, heapMethods, all []*ssa.Function
+	entries                       map[bool]map[*ssa.Function]map[string]bool
+	locksets                      map[*ssa.Function]*ir.Lockset
 }
 
 func resolveTimerRoles(c *Ctx) *timerRoles {
@@ -75,7 +77,8 @@ func resolveTimerRoles(c *Ctx) *timerRoles {
 			if ir.IsNamed(f.Type(), "sync", "Mutex") {
 				mu = f
 			}
-			if types.Implements(f.Type(), hi) {
+			// the heap is kept either behind a pointer (heap.Push(cc.h, x)) or by value (heap.Push(&cc.h, x))
+			if types.Implements(f.Type(), hi) || types.Implements(types.NewPointer(f.Type()), hi) {
 				hp = f
 			}
 		}
@@ -170,9 +173,34 @@ func resolveTimerRoles(c *Ctx) *timerRoles {
 	c.RequireFn(r.add, "timer.add")
 	c.Role("timer.add", relName(r.add), r.add.Pos())
 	r.cancelM = c.RequireFn(c.P.MethodOf(r.futureT, "Cancel"), "future.Cancel")
+	// cancel = where Cancel takes the future out of the heap (heap.Remove): the future's Cancel method itself or a
+	// function of the package it calls; when nobody removes, the control method Cancel forwards to
+	removes := func(fn *ssa.Function) bool {
+		found := false
+		ir.Instrs(fn, func(in ssa.Instruction) {
+			if heapCall(in, "Remove") != nil {
+				found = true
+			}
+		})
+		return found
+	}
+	if removes(r.cancelM) {
+		r.cancel = r.cancelM
+	}
 	for _, call := range ir.Calls(r.cancelM) {
-		if cal := ir.StaticCallee(call); isCtrlMethod(cal) {
+		cal := ir.StaticCallee(call)
+		if cal == nil || cal.Pkg != r.cancelM.Pkg || len(cal.Blocks) == 0 {
+			continue
+		}
+		if removes(cal) {
 			r.cancel = cal
+		}
+	}
+	if r.cancel == nil {
+		for _, call := range ir.Calls(r.cancelM) {
+			if cal := ir.StaticCallee(call); isCtrlMethod(cal) {
+				r.cancel = cal
+			}
 		}
 	}
 	c.RequireFn(r.cancel, "timer.cancel")
@@ -199,6 +227,586 @@ func resolveTimerRoles(c *Ctx) *timerRoles {
 	c.RequireFn(r.notify, "timer.notify")
 	c.Role("timer.notify", relName(r.notify), r.notify.Pos())
 	return r
+}
+
+// isHeapSlice reports whether t is a slice of (pointers to) futures: the representation of the queue.
+func (r *timerRoles) isHeapSlice(t types.Type) bool {
+	if t == nil {
+		return false
+	}
+	sl, ok := t.Underlying().(*types.Slice)
+	if !ok {
+		return false
+	}
+	p, ok := sl.Elem().(*types.Pointer)
+	return ok && namedOf(p.Elem()) == r.futureT
+}
+
+// heapSliceCell reports whether addr is the address of the queue's slice inside the heap object recv of a heap method:
+// the receiver itself (type *[]*future) or a slice field of it.
+func (r *timerRoles) heapSliceCell(addr ssa.Value) bool {
+	pt, ok := addr.Type().Underlying().(*types.Pointer)
+	if !ok || !r.isHeapSlice(pt.Elem()) {
+		return false
+	}
+	switch x := addr.(type) {
+	case *ssa.Parameter:
+		return true
+	case *ssa.FieldAddr:
+		_, isParam := ir.Resolve(x.X).(*ssa.Parameter)
+		return isParam
+	case *ssa.UnOp:
+		// load of the spilled receiver
+		_, isParam := ir.Resolve(x).(*ssa.Parameter)
+		return isParam
+	}
+	return false
+}
+
+// pushIndexIsAppendPosition decides "Push gives the pushed future the position it is appended at" by length arithmetic
+// over the one append of Push: with L the length of the queue before the append, a load of the queue's slice taken
+// before the append is stored back has length L, the result of the append and any later load have length L+1; the stored
+// index must evaluate to L (len before the append, or len after it minus one).
+func (r *timerRoles) pushIndexIsAppendPosition() bool {
+	fn := r.push
+	if fn == nil || len(fn.Params) != 2 {
+		return false
+	}
+	for _, b := range fn.Blocks {
+		if b != fn.Recover && len(b.Succs) > 1 {
+			return false // only straight-line Push bodies are decided here
+		}
+	}
+	// the pushed future
+	isPushed := func(v ssa.Value) bool {
+		v = ir.Resolve(v)
+		if ta, ok := v.(*ssa.TypeAssert); ok {
+			v = ir.Resolve(ta.X)
+		}
+		return v == ssa.Value(fn.Params[1])
+	}
+	var idxStore *ssa.Store
+	var app *ssa.Call
+	var appStore *ssa.Store
+	bad := false
+	ir.Instrs(fn, func(in ssa.Instruction) {
+		if base, _, ok := storeToField(in, r.fIdx); ok {
+			if idxStore != nil || !isPushed(base) {
+				bad = true
+			}
+			idxStore = in.(*ssa.Store)
+		}
+		if cc := builtinCall(in, "append"); cc != nil {
+			if call, isCall := in.(*ssa.Call); isCall && r.isHeapSlice(call.Type()) {
+				if app != nil {
+					bad = true
+				}
+				app = call
+			}
+		}
+	})
+	if bad || idxStore == nil || app == nil || len(app.Call.Args) != 2 {
+		return false
+	}
+	// nothing else in Push changes the length of the queue: one store to the queue's slice (the append, below), no calls
+	// but append, len and the heap's own Len
+	nCellStores := 0
+	ir.Instrs(fn, func(in ssa.Instruction) {
+		if st, isSt := in.(*ssa.Store); isSt && r.heapSliceCell(st.Addr) {
+			nCellStores++
+		}
+		if ci, isCall := in.(ssa.CallInstruction); isCall {
+			if builtinCall(in, "append") != nil || builtinCall(in, "len") != nil {
+				return
+			}
+			if _, plain := in.(*ssa.Call); plain && ir.StaticCallee(ci) == r.lenM && r.lenM != nil {
+				return
+			}
+			bad = true
+		}
+	})
+	if bad || nCellStores != 1 {
+		return false
+	}
+	// exactly one element is appended and it is the pushed future
+	sl, ok := app.Call.Args[1].(*ssa.Slice)
+	if !ok || sl.Low != nil || sl.High != nil {
+		return false
+	}
+	arr, ok := sl.X.(*ssa.Alloc)
+	if !ok {
+		return false
+	}
+	at, ok := arr.Type().Underlying().(*types.Pointer).Elem().Underlying().(*types.Array)
+	if !ok || at.Len() != 1 {
+		return false
+	}
+	elemOK := false
+	for _, ref := range *arr.Referrers() {
+		if ia, isIA := ref.(*ssa.IndexAddr); isIA {
+			for _, st := range ir.StoresTo(ia) {
+				elemOK = isPushed(st.Val)
+			}
+		}
+	}
+	if !elemOK {
+		return false
+	}
+	// the result of the append is stored back into the queue's slice
+	for _, ref := range *app.Referrers() {
+		if st, isSt := ref.(*ssa.Store); isSt && st.Val == ssa.Value(app) && r.heapSliceCell(st.Addr) {
+			appStore = st
+		}
+	}
+	if appStore == nil {
+		return false
+	}
+	// length of a slice value, as a*L+b
+	type lin struct{ a, b int64 }
+	cellLen := func(at ssa.Instruction) (lin, bool) {
+		switch {
+		case ir.Dominates(at, appStore):
+			return lin{1, 0}, true
+		case ir.Dominates(appStore, at):
+			return lin{1, 1}, true
+		}
+		return lin{}, false
+	}
+	var sliceLen func(v ssa.Value) (lin, bool)
+	sliceLen = func(v ssa.Value) (lin, bool) {
+		if v == ssa.Value(app) {
+			return lin{1, 1}, true
+		}
+		if u, ok := v.(*ssa.UnOp); ok && u.Op == token.MUL && r.heapSliceCell(u.X) {
+			return cellLen(u)
+		}
+		return lin{}, false
+	}
+	// the first argument of the append is the queue as it was
+	if l, ok := sliceLen(app.Call.Args[0]); !ok || l != (lin{1, 0}) {
+		return false
+	}
+	var eval func(v ssa.Value, depth int) (lin, bool)
+	eval = func(v ssa.Value, depth int) (lin, bool) {
+		if depth > 6 {
+			return lin{}, false
+		}
+		if k, ok := ir.ConstInt(v); ok {
+			return lin{0, k}, true
+		}
+		switch x := v.(type) {
+		case *ssa.BinOp:
+			l, ok1 := eval(x.X, depth+1)
+			rr, ok2 := eval(x.Y, depth+1)
+			if !ok1 || !ok2 {
+				return lin{}, false
+			}
+			switch x.Op {
+			case token.ADD:
+				return lin{l.a + rr.a, l.b + rr.b}, true
+			case token.SUB:
+				return lin{l.a - rr.a, l.b - rr.b}, true
+			}
+		case *ssa.Call:
+			if cc := builtinCall(x, "len"); cc != nil && len(cc.Args) == 1 {
+				return sliceLen(cc.Args[0])
+			}
+			// the heap's own Len method on the same receiver: len of the queue at that point
+			if ir.StaticCallee(x) == r.lenM && len(x.Call.Args) == 1 && ir.Resolve(x.Call.Args[0]) == ssa.Value(fn.Params[0]) && r.lenIsSliceLen() {
+				return cellLen(x)
+			}
+		}
+		return lin{}, false
+	}
+	l, ok := eval(idxStore.Val, 0)
+	return ok && l == (lin{1, 0})
+}
+
+// lenIsSliceLen: the heap's Len method returns len of the queue's slice.
+func (r *timerRoles) lenIsSliceLen() bool {
+	fn := r.lenM
+	rets := ir.Returns(fn)
+	if fn == nil || len(rets) != 1 || len(rets[0].Results) != 1 {
+		return false
+	}
+	call, ok := ir.Resolve(rets[0].Results[0]).(*ssa.Call)
+	if !ok {
+		return false
+	}
+	cc := builtinCall(call, "len")
+	if cc == nil || len(cc.Args) != 1 {
+		return false
+	}
+	u, ok := cc.Args[0].(*ssa.UnOp)
+	return ok && u.Op == token.MUL && r.heapSliceCell(u.X)
+}
+
+// notQueuedMarker returns the one negative constant that stands for "not in the heap" in the index field: every store
+// to the field outside Swap and Push (whose values are slot numbers and the length, decided by R1) - that is Pop, the
+// construction of a future, and whoever else writes it - stores this constant. The index field then only ever holds the
+// marker or a slot number >= 0, so "idx != marker" is the test "idx >= 0".
+func (r *timerRoles) notQueuedMarker() (int64, bool) {
+	var marker int64
+	n := 0
+	ok := true
+	for _, fn := range r.all {
+		if fn == r.swap || fn == r.push {
+			continue
+		}
+		ir.Instrs(fn, func(in ssa.Instruction) {
+			_, val, isSt := storeToField(in, r.fIdx)
+			if !isSt {
+				return
+			}
+			k, isC := ir.ConstInt(val)
+			if !isC || k >= 0 || (n > 0 && k != marker) {
+				ok = false
+				return
+			}
+			marker = k
+			n++
+		})
+		// a future overwritten as a whole would set the index without a store to the field
+		ir.Instrs(fn, func(in ssa.Instruction) {
+			if st, isSt := in.(*ssa.Store); isSt {
+				if pt, isPtr := st.Addr.Type().Underlying().(*types.Pointer); isPtr && namedOf(pt.Elem()) == r.futureT {
+					if _, direct := pt.Elem().(*types.Named); direct {
+						ok = false
+					}
+				}
+			}
+		})
+	}
+	return marker, ok && n > 0
+}
+
+// meansQueued: "idx op k" is true exactly for the indexes of queued futures (idx >= 0), given what the field can hold.
+func (r *timerRoles) meansQueued(op token.Token, k int64) bool {
+	switch {
+	case op == token.GEQ && k == 0, op == token.GTR && k == -1:
+		return true
+	}
+	m, ok := r.notQueuedMarker()
+	if !ok {
+		return false
+	}
+	switch op {
+	case token.NEQ:
+		return k == m
+	case token.GEQ:
+		return m < k && k <= 0
+	case token.GTR:
+		return m <= k && k < 0
+	}
+	return false
+}
+
+// isHeapLen: v is the number of queued futures - the heap's Len method, or len of the queue's slice.
+func (r *timerRoles) isHeapLen(v ssa.Value) bool {
+	call, ok := ir.Resolve(v).(*ssa.Call)
+	if !ok {
+		return false
+	}
+	if ir.StaticCallee(call) == r.lenM {
+		return true
+	}
+	if cc := builtinCall(call, "len"); cc != nil && len(cc.Args) == 1 && r.isHeapSlice(cc.Args[0].Type()) {
+		return true
+	}
+	return false
+}
+
+// paramAlways reports whether the argument bound to parameter prm satisfies pred at every call of prm's function in
+// the package (which must have at least one and must not be used as a value).
+func (r *timerRoles) paramAlways(c *Ctx, prm *ssa.Parameter, pred func(ssa.Value) bool) bool {
+	fn := prm.Parent()
+	idx := -1
+	for i, p := range fn.Params {
+		if p == prm {
+			idx = i
+		}
+	}
+	if idx < 0 {
+		return false
+	}
+	n := 0
+	ok := true
+	fns := append([]*ssa.Function{}, r.all...)
+	if pk := c.P.SSAPkg("timeout"); pk != nil {
+		if ini := pk.Func("init"); ini != nil {
+			fns = append(fns, ini)
+		}
+	}
+	seen := map[*ssa.Function]bool{}
+	for _, f := range fns {
+		if seen[f] {
+			continue
+		}
+		seen[f] = true
+		ir.Instrs(f, func(in ssa.Instruction) {
+			if ci, isCall := in.(ssa.CallInstruction); isCall && ir.StaticCallee(ci) == fn {
+				n++
+				if idx >= len(ci.Common().Args) || !pred(ir.Resolve(ci.Common().Args[idx])) {
+					ok = false
+				}
+				return
+			}
+			// the function used as a value: unknown callers
+			var ops [16]*ssa.Value
+			for _, op := range in.Operands(ops[:0]) {
+				if op != nil && *op == ssa.Value(fn) {
+					ok = false
+				}
+			}
+		})
+	}
+	return ok && n > 0
+}
+
+// isHeadFireTime: v is the fire time of element 0 of the queue.
+func (r *timerRoles) isHeadFireTime(v ssa.Value) bool {
+	base, isT := loadOfField(v, r.fTime)
+	if !isT {
+		return false
+	}
+	// the element may have gone through a "head or nil" variable: nil cannot be dereferenced, the rest must be element 0
+	n := 0
+	for _, o := range phiClosure(ir.Resolve(base)) {
+		if ir.IsNilConst(o) {
+			continue
+		}
+		u, ok := ir.Resolve(o).(*ssa.UnOp)
+		if !ok || u.Op != token.MUL {
+			return false
+		}
+		ia, ok := u.X.(*ssa.IndexAddr)
+		if !ok {
+			return false
+		}
+		if k, isC := ir.ConstInt(ia.Index); !isC || k != 0 {
+			return false
+		}
+		n++
+	}
+	return n > 0
+}
+
+// entryLocks returns the locks a function of the package is entered with: what is held at every one of its call sites
+// (may == false: the must set, the intersection) or at some call site (may == true: the union). Exported functions,
+// closures, goroutine bodies, deferred calls and functions used as values are entered with nothing held (must) - for the
+// may set a deferred call or a value use contributes what is held where it is written down. A private helper whose
+// comment says "the lock must be held" is thereby checked against its callers instead of being taken on trust.
+// Computed for all functions at once as a fixed point (greatest for must, least for may), so call cycles
+// (worker -> helper -> go worker) are handled.
+func (r *timerRoles) entryLocks(fn *ssa.Function, may bool, _ map[*ssa.Function]bool) map[string]bool {
+	if r.entries == nil {
+		r.entries = map[bool]map[*ssa.Function]map[string]bool{}
+	}
+	if r.entries[may] == nil {
+		r.entries[may] = r.computeEntries(may)
+	}
+	return r.entries[may][fn]
+}
+
+func (r *timerRoles) computeEntries(may bool) map[*ssa.Function]map[string]bool {
+	universe := map[string]bool{}
+	for _, f := range r.all {
+		ir.Instrs(f, func(in ssa.Instruction) {
+			if p, acq, _ := ir.LockOp(in); acq {
+				universe[p] = true
+			}
+		})
+	}
+	inherits := func(fn *ssa.Function) bool {
+		return fn.Parent() == nil && fn.Object() != nil && !fn.Object().Exported()
+	}
+	entry := map[*ssa.Function]map[string]bool{}
+	for _, f := range r.all {
+		if !inherits(f) {
+			continue
+		}
+		entry[f] = map[string]bool{}
+		if !may {
+			for k := range universe {
+				entry[f][k] = true
+			}
+		}
+	}
+	for iter := 0; iter < 32; iter++ {
+		next := map[*ssa.Function]map[string]bool{}
+		seenSite := map[*ssa.Function]bool{}
+		merge := func(fn *ssa.Function, held map[string]bool) {
+			if !seenSite[fn] {
+				seenSite[fn] = true
+				next[fn] = map[string]bool{}
+				for k := range held {
+					next[fn][k] = true
+				}
+				return
+			}
+			if may {
+				for k := range held {
+					next[fn][k] = true
+				}
+				return
+			}
+			for k := range next[fn] {
+				if !held[k] {
+					delete(next[fn], k)
+				}
+			}
+		}
+		for _, caller := range r.all {
+			ls := ir.ComputeLockset(caller, entry[caller])
+			ir.Instrs(caller, func(in ssa.Instruction) {
+				if ci, isCall := in.(ssa.CallInstruction); isCall {
+					if cal := ir.StaticCallee(ci); cal != nil && entry[cal] != nil {
+						if _, plain := in.(*ssa.Call); plain {
+							merge(cal, ls.Before[in])
+						} else if _, isGo := in.(*ssa.Go); isGo || !may {
+							merge(cal, nil)
+						} else {
+							merge(cal, ls.Before[in])
+						}
+					}
+				}
+				// a function used as a value: it may be called from anywhere
+				var ops [16]*ssa.Value
+				for _, op := range in.Operands(ops[:0]) {
+					if op == nil {
+						continue
+					}
+					f, isFn := (*op).(*ssa.Function)
+					if !isFn || entry[f] == nil {
+						continue
+					}
+					if ci, isCall := in.(ssa.CallInstruction); isCall && ci.Common().Value == ssa.Value(f) {
+						continue // the callee operand of the call itself
+					}
+					if may {
+						merge(f, ls.Before[in])
+					} else {
+						merge(f, nil)
+					}
+				}
+			})
+		}
+		changed := false
+		for f := range entry {
+			n := next[f]
+			if n == nil {
+				n = map[string]bool{} // never called
+			}
+			if len(n) != len(entry[f]) {
+				changed = true
+			} else {
+				for k := range n {
+					if !entry[f][k] {
+						changed = true
+					}
+				}
+			}
+			entry[f] = n
+		}
+		if !changed {
+			return entry
+		}
+	}
+	// no fixed point within the bound: inherit nothing
+	for f := range entry {
+		entry[f] = map[string]bool{}
+	}
+	return entry
+}
+
+// lockset is the must-lockset of fn, entered with the locks all its callers hold.
+func (r *timerRoles) lockset(fn *ssa.Function) *ir.Lockset {
+	if ls, ok := r.locksets[fn]; ok {
+		return ls
+	}
+	if r.locksets == nil {
+		r.locksets = map[*ssa.Function]*ir.Lockset{}
+	}
+	ls := ir.ComputeLockset(fn, r.entryLocks(fn, false, nil))
+	r.locksets[fn] = ls
+	return ls
+}
+
+// workerBodies lists the worker and the functions of the package it calls (transitively, plain calls): where the
+// worker's loop body may have been moved to.
+func (r *timerRoles) workerBodies() []*ssa.Function {
+	heapSet := map[*ssa.Function]bool{}
+	for _, m := range r.heapMethods {
+		heapSet[m] = true
+	}
+	res := []*ssa.Function{r.worker}
+	seen := map[*ssa.Function]bool{r.worker: true}
+	for i := 0; i < len(res); i++ {
+		ir.Instrs(res[i], func(in ssa.Instruction) {
+			call, ok := in.(*ssa.Call)
+			if !ok {
+				return
+			}
+			cal := ir.StaticCallee(call)
+			if cal == nil || seen[cal] || heapSet[cal] || cal.Pkg != r.worker.Pkg || len(cal.Blocks) == 0 {
+				return
+			}
+			seen[cal] = true
+			res = append(res, cal)
+		})
+	}
+	return res
+}
+
+// poppedFuture reports whether v is the future just taken from the heap: heap.Pop(h).(*future), or the result of a
+// helper of the package every exit of which returns such a value or nil.
+func (r *timerRoles) poppedFuture(v ssa.Value, depth int) bool {
+	v = ir.Resolve(v)
+	if phi, isPhi := v.(*ssa.Phi); isPhi && depth <= 2 {
+		// a "popped future or nil" variable: nil has no callback to load
+		n := 0
+		for _, o := range phiClosure(phi) {
+			if ir.IsNilConst(o) {
+				continue
+			}
+			if !r.poppedFuture(o, depth+1) {
+				return false
+			}
+			n++
+		}
+		return n > 0
+	}
+	if ta, ok := v.(*ssa.TypeAssert); ok {
+		if pc, ok := ta.X.(*ssa.Call); ok && heapCall(pc, "Pop") != nil {
+			return true
+		}
+		return false
+	}
+	call, ok := v.(*ssa.Call)
+	if !ok || depth > 2 {
+		return false
+	}
+	cal := ir.StaticCallee(call)
+	if cal == nil || cal.Pkg != r.worker.Pkg || len(cal.Blocks) == 0 || cal.Signature.Results().Len() != 1 {
+		return false
+	}
+	n := 0
+	for _, ep := range ir.ExitPoints(cal) {
+		res := ep.Result(0)
+		if res == nil {
+			return false
+		}
+		for _, o := range phiClosure(res) {
+			if ir.IsNilConst(o) {
+				continue
+			}
+			if !r.poppedFuture(o, depth+1) {
+				return false
+			}
+			n++
+		}
+	}
+	return n > 0
 }
 
 func (r *timerRoles) mutexHeld(ls *ir.Lockset, in ssa.Instruction) bool {
@@ -249,9 +857,19 @@ func timerRules(c *Ctx, pfx string) {
 			if strings.HasPrefix(path, "arr[") && !strings.Contains(path, ".") {
 				return ai.Ptr{Path: "fut@" + path}
 			}
+			// the slice of queued futures, wherever the heap object keeps it (the heap object itself, or a field of it)
+			if (path == "H" || strings.HasPrefix(path, "H.")) && r.isHeapSlice(t) {
+				return ai.Ptr{Path: "arr"}
+			}
 			return nil
 		}
-		base := func() *ai.State { return &ai.State{Mem: map[string]ai.Val{"H": ai.Ptr{Path: "arr"}}} }
+		base := func() *ai.State {
+			st := &ai.State{Mem: map[string]ai.Val{}}
+			if r.isHeapSlice(r.futuresT) {
+				st.Mem["H"] = ai.Ptr{Path: "arr"}
+			}
+			return st
+		}
 		fs := ai.Ptr{Path: "H"}
 		idxPath := func(p ai.Val) (string, bool) {
 			pp, ok := p.(ai.Ptr)
@@ -292,6 +910,10 @@ func timerRules(c *Ctx, pfx string) {
 		} else {
 			got := outs[0].State.Mem["newfut."+r.fIdx.Name()]
 			ok := got != nil && got.String() == "<len:arr>"
+			if !ok && r.pushIndexIsAppendPosition() {
+				// the same index written in terms of the slice after the append (len(s)-1), decided by length arithmetic
+				ok = true
+			}
 			g := "nothing"
 			if got != nil {
 				g = got.String()
@@ -326,7 +948,7 @@ func timerRules(c *Ctx, pfx string) {
 	// R2 cancel is guarded
 	{
 		fn := r.cancel
-		ls := ir.ComputeLockset(fn, nil)
+		ls := r.lockset(fn)
 		n := 0
 		ir.Instrs(fn, func(in ssa.Instruction) {
 			call := heapCall(in, "Remove")
@@ -336,13 +958,17 @@ func timerRules(c *Ctx, pfx string) {
 			n++
 			idxArg := call.Call.Args[1]
 			base, isIdx := loadOfField(idxArg, r.fIdx)
-			guarded := isIdx && hasFactCmp(call.Block(), func(cm ir.Cmp) bool {
-				b2, ok := loadOfField(cm.X, r.fIdx)
+			guarded := isIdx && tmGuardHolds(call.Block(), func(cm ir.Cmp) bool {
+				x, y, op := cm.X, cm.Y, cm.Op
+				if _, isC := ir.ConstInt(x); isC {
+					x, y, op = y, x, ir.SwapOp(op)
+				}
+				b2, ok := loadOfField(x, r.fIdx)
 				if !ok || !same(b2, base) {
 					return false
 				}
-				k, isC := ir.ConstInt(cm.Y)
-				return isC && ((cm.Op == token.GEQ && k == 0) || (cm.Op == token.GTR && k == -1))
+				k, isC := ir.ConstInt(y)
+				return isC && r.meansQueued(op, k)
 			})
 			c.Decide(pfx+"2", fn, "heap.Remove guarded by idx>=0", call, guarded, "Cancel removes by index without the 'still queued' test: cancelling a fired or already cancelled future removes another future")
 			c.Decide(pfx+"2", fn, "heap.Remove under the lock", call, r.mutexHeld(ls, in), "Cancel removes from the heap without holding the lock")
@@ -355,60 +981,59 @@ func timerRules(c *Ctx, pfx string) {
 
 	// R3 pop only when due
 	{
-		fn := r.worker
 		n := 0
-		ir.Instrs(fn, func(in ssa.Instruction) {
-			call := heapCall(in, "Pop")
-			if call == nil {
-				return
-			}
-			n++
-			var after *ssa.Call
-			for _, f := range ir.Facts(call.Block()) {
-				f = f.StripNot()
-				if ac, ok := f.Cond.(*ssa.Call); ok && f.True && ir.CalleeFullName(ac) == "(time.Time).After" {
-					after = ac
-				}
-			}
-			if after == nil {
-				c.Decide(pfx+"3", fn, "heap.Pop only when now.After(fireTime)", call, false, "a future is popped without the test that the current time is after its fire time (started early)")
-				return
-			}
-			now, t := ir.Resolve(after.Call.Args[0]), ir.Resolve(after.Call.Args[1])
-			nowCall, isNow := now.(*ssa.Call)
-			okNow := isNow && ir.CalleeFullName(nowCall) == "time.Now"
-			// t = load of fireTime of element 0 of the heap
-			okT := false
-			if r.fTime != nil {
-				if base, isT := loadOfField(t, r.fTime); isT {
-					if u, ok := ir.Resolve(base).(*ssa.UnOp); ok {
-						if ia, ok := u.X.(*ssa.IndexAddr); ok {
-							if k, isC := ir.ConstInt(ia.Index); isC && k == 0 {
-								okT = true
-							}
-						}
-					}
-				}
-			}
-			c.Decide(pfx+"3", fn, "heap.Pop only when now.After(fireTime)", call, okNow && okT, "the due test before heap.Pop does not compare time.Now() with the fire time of the heap's first element")
-			// one critical section from the After test to the Pop
-			released := false
-			ir.Instrs(fn, func(u ssa.Instruction) {
-				if !r.isUnlock(u) {
+		for _, fn := range r.workerBodies() {
+			fn := fn
+			ir.Instrs(fn, func(in ssa.Instruction) {
+				call := heapCall(in, "Pop")
+				if call == nil {
 					return
 				}
-				w1, _ := (ir.Query{Fn: fn, From: after, Block: func(x ssa.Instruction) bool { return x == ssa.Instruction(call) }, Target: func(x ssa.Instruction) bool { return x == u }}).Find()
-				w2, _ := (ir.Query{Fn: fn, From: u, Block: func(x ssa.Instruction) bool { return x == ssa.Instruction(after) }, Target: func(x ssa.Instruction) bool { return x == ssa.Instruction(call) }}).Find()
-				if w1 != nil && w2 != nil {
-					released = true
+				n++
+				// the due test: now.After(t), or the same comparison spelled t.Before(now), known true on the way to the Pop
+				var after *ssa.Call
+				var now, t ssa.Value
+				for _, f := range ir.Facts(call.Block()) {
+					f = f.StripNot()
+					if l, e, ok := tmStrictlyAfter(f.Cond); ok && f.True {
+						after, now, t = f.Cond.(*ssa.Call), ir.Resolve(l), e
+					}
 				}
+				if after == nil {
+					c.Decide(pfx+"3", fn, "heap.Pop only when now.After(fireTime)", call, false, "a future is popped without the test that the current time is after its fire time (started early)")
+					return
+				}
+				isTimeNow := func(v ssa.Value) bool {
+					nc, isCall := ir.Resolve(v).(*ssa.Call)
+					return isCall && ir.CalleeFullName(nc) == "time.Now"
+				}
+				okNow := isTimeNow(now)
+				if prm, isPrm := now.(*ssa.Parameter); isPrm && fn != r.worker {
+					// the current time handed to a helper of the worker: time.Now() at every call
+					okNow = r.paramAlways(c, prm, isTimeNow)
+				}
+				// t = load of fireTime of element 0 of the heap (every alternative that is possible under the guards of the Pop)
+				okT := r.fTime != nil && tmAllFeasibleOrigins(t, call.Block(), r.isHeadFireTime)
+				c.Decide(pfx+"3", fn, "heap.Pop only when now.After(fireTime)", call, okNow && okT, "the due test before heap.Pop does not compare time.Now() with the fire time of the heap's first element")
+				// one critical section from the After test to the Pop
+				released := false
+				ir.Instrs(fn, func(u ssa.Instruction) {
+					if !r.isUnlock(u) {
+						return
+					}
+					w1, _ := (ir.Query{Fn: fn, From: after, Block: func(x ssa.Instruction) bool { return x == ssa.Instruction(call) }, Target: func(x ssa.Instruction) bool { return x == u }}).Find()
+					w2, _ := (ir.Query{Fn: fn, From: u, Block: func(x ssa.Instruction) bool { return x == ssa.Instruction(after) }, Target: func(x ssa.Instruction) bool { return x == ssa.Instruction(call) }}).Find()
+					if w1 != nil && w2 != nil {
+						released = true
+					}
+				})
+				c.Decide(pfx+"3", fn, "due test and Pop in one critical section", call, !released, "the lock is released between the due test and heap.Pop: the popped future need not be the one that was tested")
+				ls := r.lockset(fn)
+				c.Decide(pfx+"3", fn, "heap.Pop under the lock", call, r.mutexHeld(ls, in) && r.mutexHeld(ls, after), "heap.Pop or its due test runs without the lock")
 			})
-			c.Decide(pfx+"3", fn, "due test and Pop in one critical section", call, !released, "the lock is released between the due test and heap.Pop: the popped future need not be the one that was tested")
-			ls := ir.ComputeLockset(fn, nil)
-			c.Decide(pfx+"3", fn, "heap.Pop under the lock", call, r.mutexHeld(ls, in) && r.mutexHeld(ls, after), "heap.Pop or its due test runs without the lock")
-		})
+		}
 		if n == 0 {
-			c.Decide(pfx+"3", fn, "worker pops due futures", nil, false, "the worker never calls heap.Pop")
+			c.Decide(pfx+"3", r.worker, "worker pops due futures", nil, false, "the worker never calls heap.Pop")
 		}
 	}
 
@@ -498,12 +1123,8 @@ func timerRules(c *Ctx, pfx string) {
 					return
 				}
 				// must be the callback of the future returned by heap.Pop
-				if base, ok := loadOfField(x, r.fF); ok {
-					if ta, ok := ir.Resolve(base).(*ssa.TypeAssert); ok {
-						if pc, ok := ta.X.(*ssa.Call); ok && heapCall(pc, "Pop") != nil {
-							return
-						}
-					}
+				if base, ok := loadOfField(x, r.fF); ok && r.poppedFuture(base, 0) {
+					return
 				}
 				if x == v {
 					bad = "the invoked callback is carried into the next iteration without being cleared: it is started again"
@@ -584,14 +1205,19 @@ func timerRules(c *Ctx, pfx string) {
 				if !ok {
 					return
 				}
-				// a store of a slice value through a *futures pointer, or into an element of the heap slice
-				pt, isPtr := st.Addr.Type().(*types.Pointer)
-				writesHeap := isPtr && namedOf(pt.Elem()) == r.futuresT && pt.Elem() != types.Type(types.NewPointer(r.futuresT))
-				if _, isNamed := pt.Elem().(*types.Named); !isNamed {
-					writesHeap = false
+				// a store of the queue's slice (through the heap pointer, or into the heap object's slice field), or into an
+				// element of the queue; the slice header of a local copy (s := *fs) is not the queue, its elements are
+				writesHeap := false
+				if pt, isPtr := st.Addr.Type().Underlying().(*types.Pointer); isPtr && r.isHeapSlice(pt.Elem()) {
+					if _, local := st.Addr.(*ssa.Alloc); !local {
+						writesHeap = true
+					}
 				}
-				if ia, isIA := st.Addr.(*ssa.IndexAddr); isIA && namedOf(ia.X.Type()) == r.futuresT {
+				if ia, isIA := st.Addr.(*ssa.IndexAddr); isIA && r.isHeapSlice(ia.X.Type()) {
 					writesHeap = true
+				}
+				if writesHeap && tmUnderConstruction(tmRootObject(st.Addr), in) {
+					return // initialisation of a control block under construction
 				}
 				if writesHeap {
 					c.Decide(pfx+"7", fn, "heap slice written only by heap.Interface methods", in, heapSet[fn], "the heap slice is modified outside Swap/Push/Pop: the element leaves or moves without its index being maintained")
@@ -606,6 +1232,59 @@ func timerRules(c *Ctx, pfx string) {
 		}
 		c.R.Floor(pfx+"7", 4)
 	}
+}
+
+// tmNoFeasiblePath records a must-pass-through obligation like NoPath, but does not count paths that contradict
+// themselves (see tmFeasSearch): a step/state value selected on the path decides the later switch over it, a flag set on
+// the path decides the later test of the same flag. The searches only drop paths that cannot execute, so finding none is
+// a proof.
+func (c *Ctx) tmNoFeasiblePath(rule, construct string, at ssa.Instruction, q ir.Query, what string) bool {
+	w, err := q.Find()
+	if err == nil && w == nil {
+		c.Decide(rule, q.Fn, construct, at, true, "")
+		return true
+	}
+	plain := q.BlockEdge == nil && q.BlockFact == nil && len(q.Assume) == 0
+	sensitive := func(from ssa.Instruction, stop func(ssa.Instruction) bool) bool {
+		found, ferr := (tmFeasSearch{Fn: q.Fn, From: from, FromBlock: q.FromBlock, Stop: stop, Target: q.Target, MaxStates: 20000}).find()
+		return ferr == nil && !found
+	}
+	proved := plain && sensitive(q.From, q.Block)
+	if !proved && plain && q.From == nil && q.FromBlock == nil {
+		// a loop that counts (idle rounds) has unboundedly many constant states; cut it at the lock acquisitions: a path
+		// from the entry to the target avoiding the must-pass set either meets no acquisition, or continues from its last
+		// one without meeting another. Starting a search in the middle only forgets values, so this is still a proof.
+		isCut := map[ssa.Instruction]bool{}
+		ir.Instrs(q.Fn, func(in ssa.Instruction) {
+			if _, acq, _ := ir.LockOp(in); acq {
+				if _, isDefer := in.(*ssa.Defer); !isDefer {
+					isCut[in] = true
+				}
+			}
+		})
+		if len(isCut) > 0 {
+			stop := func(x ssa.Instruction) bool { return isCut[x] || (q.Block != nil && q.Block(x)) }
+			proved = sensitive(nil, stop)
+			for from := range isCut {
+				if !proved {
+					break
+				}
+				// the guard facts of the cut's block are not assumed: the path arrives there with values of its own
+				found, ferr := (tmFeasSearch{Fn: q.Fn, From: from, Stop: stop, Target: q.Target, MaxStates: 20000, NoFacts: true}).find()
+				proved = ferr == nil && !found
+			}
+		}
+	}
+	if proved {
+		c.Decide(rule, q.Fn, construct, at, true, "")
+		return true
+	}
+	if err != nil {
+		c.Undecided(rule, q.Fn, construct, at, err.Error())
+		return false
+	}
+	c.Decide(rule, q.Fn, construct, at, false, what+": path "+w.String(c.P))
+	return false
 }
 
 // phiClosure returns the non-phi values reachable from v through phi operands.
@@ -641,13 +1320,16 @@ func (c *Ctx) timerLockset(r *timerRoles, rule string) {
 		if heapSet[fn] || isPkgInit(fn) {
 			continue
 		}
-		ls := ir.ComputeLockset(fn, nil)
+		ls := r.lockset(fn)
 		ir.Instrs(fn, func(in ssa.Instruction) {
 			call, ok := in.(*ssa.Call)
 			if !ok {
 				return
 			}
 			enters := heapCall(in, "") != nil || heapSet[ir.StaticCallee(call)]
+			if enters && len(call.Call.Args) > 0 && tmUnderConstruction(tmRootObject(call.Call.Args[0]), in) {
+				return // the heap of a control block that is still being built (constructor): nobody else can see it
+			}
 			if enters {
 				c.Decide(rule, fn, "heap entered under the lock", in, r.mutexHeld(ls, in), "the heap is read or modified without the package lock")
 			}
@@ -658,7 +1340,7 @@ func (c *Ctx) timerLockset(r *timerRoles, rule string) {
 		if heapSet[fn] || isPkgInit(fn) {
 			continue
 		}
-		ls := ir.ComputeLockset(fn, nil)
+		ls := r.lockset(fn)
 		ir.Instrs(fn, func(in ssa.Instruction) {
 			fa, ok := in.(*ssa.FieldAddr)
 			if !ok {
@@ -667,10 +1349,17 @@ func (c *Ctx) timerLockset(r *timerRoles, rule string) {
 			f := ir.FieldOf(fa)
 			switch f {
 			case r.workers:
+				if tmUnderConstruction(fa.X, in) {
+					return
+				}
 				c.Decide(rule, fn, "worker count accessed under the lock", in, r.mutexHeld(ls, in), "the worker count is accessed without the package lock")
 			case r.fIdx, r.fF:
 				// the unpublished future in Call
 				if _, fresh := ir.Resolve(fa.X).(*ssa.Alloc); fresh && fn == r.callFn {
+					return
+				}
+				// a future under construction in a helper of Call
+				if fn != r.callFn && tmUnderConstruction(fa.X, in) {
 					return
 				}
 				c.Decide(rule, fn, "future "+f.Name()+" accessed under the lock", in, r.mutexHeld(ls, in), "a queued future's index/callback is accessed without the package lock")
@@ -726,8 +1415,9 @@ func timerLiveRules(c *Ctx, pfx string) {
 
 	// R2 worker accounting
 	{
+		nSpawn, nRet, nDec := 0, 0, 0
 		for _, fn := range r.all {
-			ls := ir.ComputeLockset(fn, nil)
+			ls := r.lockset(fn)
 			ir.Instrs(fn, func(in ssa.Instruction) {
 				if !isSpawn(in) {
 					return
@@ -745,15 +1435,17 @@ func timerLiveRules(c *Ctx, pfx string) {
 						ok = false
 					}
 				}
+				nSpawn++
 				c.Decide(pfx+"2", fn, "go worker() preceded by workers++ in the same critical section", in, ok, "a worker is started without being counted under the lock: the pool size drifts (no worker is started although none exists, or too many)")
 			})
 		}
 		fn := r.worker
-		ls := ir.ComputeLockset(fn, nil)
+		ls := r.lockset(fn)
 		isDec := func(x ssa.Instruction) bool { _, ok := isFieldDelta(x, r.workers, -1); return ok }
 		for _, ret := range ir.Returns(fn) {
 			ret := ret
-			c.NoPath(pfx+"2", "worker return preceded by workers--", ret, ir.Query{Fn: fn, Block: isDec, Target: func(x ssa.Instruction) bool { return x == ssa.Instruction(ret) }},
+			nRet++
+			c.tmNoFeasiblePath(pfx+"2", "worker return preceded by workers--", ret, ir.Query{Fn: fn, Block: isDec, Target: func(x ssa.Instruction) bool { return x == ssa.Instruction(ret) }},
 				"the worker exits without deregistering: the count says a worker exists, so add never starts one again and pending futures never fire")
 		}
 		ir.Instrs(fn, func(in ssa.Instruction) {
@@ -761,16 +1453,23 @@ func timerLiveRules(c *Ctx, pfx string) {
 				return
 			}
 			c.Decide(pfx+"2", fn, "workers-- under the lock", in, r.mutexHeld(ls, in), "the worker count is decremented without the lock")
-			c.NoPath(pfx+"2", "deregistered worker does not continue", in, ir.Query{Fn: fn, From: in, Target: func(x ssa.Instruction) bool { return r.isLock(x) || isSpawn(x) }},
+			nDec++
+			c.tmNoFeasiblePath(pfx+"2", "deregistered worker does not continue", in, ir.Query{Fn: fn, From: in, Target: func(x ssa.Instruction) bool { return r.isLock(x) || isSpawn(x) }},
 				"a worker that deregistered itself keeps running")
 		})
-		c.R.Floor(pfx+"2", 6)
+		// the rule must have seen every kind of construct it is about: a worker start, a return of the worker, a
+		// deregistration (two obligations each). How many statements of each kind there are depends on the style
+		// (one return per exit path, or one return behind a "quit" flag / a step value).
+		if nSpawn == 0 || nRet == 0 || nDec == 0 {
+			c.R.Errorf("rule %s matched %d worker start(s), %d worker return(s), %d deregistration(s): the anchored code changed shape and the rule would pass vacuously", pfx+"2", nSpawn, nRet, nDec)
+		}
+		c.R.Floor(pfx+"2", 4)
 	}
 
 	// R3 callbacks run unlocked
 	{
 		fn := r.worker
-		ls := ir.ComputeLockset(fn, nil)
+		ls := r.lockset(fn)
 		n := 0
 		ir.Instrs(fn, func(in ssa.Instruction) {
 			call, ok := in.(*ssa.Call)
@@ -784,7 +1483,7 @@ func timerLiveRules(c *Ctx, pfx string) {
 				return
 			}
 			n++
-			c.Decide(pfx+"3", fn, "callback invoked with the lock released", in, len(ls.Any(in)) == 0, "a callback runs while the package lock is held: a callback that schedules or cancels (lease renewal does) deadlocks, and no other future can fire meanwhile")
+			c.Decide(pfx+"3", fn, "callback invoked with the lock released", in, len(ls.Any(in)) == 0 && len(r.entryLocks(fn, true, nil)) == 0, "a callback runs while the package lock is held: a callback that schedules or cancels (lease renewal does) deadlocks, and no other future can fire meanwhile")
 		})
 		if n == 0 {
 			c.Decide(pfx+"3", fn, "callback invoked with the lock released", nil, false, "the worker invokes no callback")
@@ -825,6 +1524,9 @@ func timerLiveRules(c *Ctx, pfx string) {
 				if mk, isMk := ir.Resolve(val).(*ssa.MakeChan); isMk {
 					if k, isC := ir.ConstInt(mk.Size); isC {
 						capOK = k >= 1
+					} else if prm, isPrm := ir.Resolve(mk.Size).(*ssa.Parameter); isPrm {
+						// capacity handed to a constructor: positive at every call of the constructor
+						capOK = r.paramAlways(c, prm, func(v ssa.Value) bool { k, isC := ir.ConstInt(v); return isC && k >= 1 })
 					} else {
 						capOK = true // capacity taken from the pool size field (checked positive by construction)
 						if fld := ir.LoadedField(mk.Size); fld == nil {
@@ -842,8 +1544,9 @@ func timerLiveRules(c *Ctx, pfx string) {
 		fn := r.less
 		ok := false
 		for _, ret := range ir.Returns(fn) {
-			call, isCall := ir.Resolve(ret.Results[0]).(*ssa.Call)
-			if !isCall || ir.CalleeFullName(call) != "(time.Time).Before" || len(fn.Params) != 3 {
+			// elem[i].t.Before(elem[j].t), or the same comparison spelled elem[j].t.After(elem[i].t)
+			later, earlier, isCmp := tmStrictlyAfter(ir.Resolve(ret.Results[0]))
+			if !isCmp || len(fn.Params) != 3 {
 				continue
 			}
 			elemIdx := func(v ssa.Value) ssa.Value {
@@ -861,7 +1564,7 @@ func timerLiveRules(c *Ctx, pfx string) {
 				}
 				return nil
 			}
-			if elemIdx(call.Call.Args[0]) == ssa.Value(fn.Params[1]) && elemIdx(call.Call.Args[1]) == ssa.Value(fn.Params[2]) {
+			if elemIdx(earlier) == ssa.Value(fn.Params[1]) && elemIdx(later) == ssa.Value(fn.Params[2]) {
 				ok = true
 			}
 		}
@@ -871,7 +1574,7 @@ func timerLiveRules(c *Ctx, pfx string) {
 	// R6 re-read under lock after every wake-up; block only unlocked
 	{
 		fn := r.worker
-		ls := ir.ComputeLockset(fn, nil)
+		ls := r.lockset(fn)
 		n := 0
 		ir.Instrs(fn, func(in ssa.Instruction) {
 			sel, ok := in.(*ssa.Select)
@@ -879,7 +1582,7 @@ func timerLiveRules(c *Ctx, pfx string) {
 				return
 			}
 			n++
-			c.Decide(pfx+"6", fn, "worker sleeps with the lock released", in, len(ls.Any(in)) == 0, "the worker blocks in select while holding the lock")
+			c.Decide(pfx+"6", fn, "worker sleeps with the lock released", in, len(ls.Any(in)) == 0 && len(r.entryLocks(fn, true, nil)) == 0, "the worker blocks in select while holding the lock")
 			// the select listens on the wake channel
 			listens := false
 			for _, st := range sel.States {
@@ -939,7 +1642,7 @@ func timerLiveRules(c *Ctx, pfx string) {
 					continue
 				}
 				n++
-				c.NoPath(pfx+"7", "woken worker re-arms before it may retire", b.Instrs[0], ir.Query{Fn: fn, FromBlock: b, TrackConsts: true,
+				c.tmNoFeasiblePath(pfx+"7", "woken worker re-arms before it may retire", b.Instrs[0], ir.Query{Fn: fn, FromBlock: b, TrackConsts: true,
 					Block: func(x ssa.Instruction) bool {
 						if s2, ok := x.(*ssa.Select); ok && s2.Blocking {
 							return true
@@ -992,17 +1695,31 @@ func timerLiveRules(c *Ctx, pfx string) {
 			if _, ok := isFieldDelta(in, r.workers, -1); !ok {
 				return
 			}
-			empty := hasFactCmp(in.Block(), func(cm ir.Cmp) bool {
-				call, isCall := ir.Resolve(cm.X).(*ssa.Call)
-				k, isC := ir.ConstInt(cm.Y)
-				return isCall && ir.StaticCallee(call) == r.lenM && isC && k == 0 && cm.Op == token.EQL
-			})
-			others := hasFactCmp(in.Block(), func(cm ir.Cmp) bool {
-				_, isW := loadOfField(cm.X, r.workers)
-				k, isC := ir.ConstInt(cm.Y)
-				return isW && isC && ((cm.Op == token.GTR && k >= 1) || (cm.Op == token.GEQ && k >= 2))
-			})
-			c.Decide(pfx+"9", fn, "worker retires only with an empty heap or another worker left", in, empty || others,
+			// the guards may be known directly or through a flag computed under them (quit := ...; if quit { workers-- });
+			// a flag may have been set under either guard, so the alternative is decided per way of reaching the statement
+			empty := func(cm ir.Cmp) bool {
+				x, y, op := cm.X, cm.Y, cm.Op
+				if _, isC := ir.ConstInt(x); isC {
+					x, y, op = y, x, ir.SwapOp(op)
+				}
+				k, isC := ir.ConstInt(y)
+				if !isC || !r.isHeapLen(x) {
+					return false
+				}
+				// a length is never negative: len == 0, len <= 0, len < 1
+				return (op == token.EQL && k == 0) || (op == token.LEQ && k == 0) || (op == token.LSS && k == 1)
+			}
+			others := func(cm ir.Cmp) bool {
+				x, y, op := cm.X, cm.Y, cm.Op
+				if _, isC := ir.ConstInt(x); isC {
+					x, y, op = y, x, ir.SwapOp(op)
+				}
+				_, isW := loadOfField(x, r.workers)
+				k, isC := ir.ConstInt(y)
+				return isW && isC && ((op == token.GTR && k >= 1) || (op == token.GEQ && k >= 2))
+			}
+			ok := tmGuardHolds(in.Block(), func(cm ir.Cmp) bool { return empty(cm) || others(cm) })
+			c.Decide(pfx+"9", fn, "worker retires only with an empty heap or another worker left", in, ok,
 				"a worker can deregister while futures are pending and it may be the last one: nobody is left to start them until some later Call spawns a worker")
 		})
 	}
